@@ -63,6 +63,10 @@ fn bytes_of_enc(f: &FileSpec, enc: &'static encoding_rs::Encoding) -> Vec<u8> {
     v.extend_from_slice(&encode_text(enc, f.bom, &f.text));
     if f.kind == "badutf8" {
         v.extend_from_slice(&[b'/', b'/', 0xFF, 0xFE, b'\n']);
+        // the large variant: kilobytes of valid text follow the bad bytes
+        if f.path.contains("big") {
+            v.extend_from_slice("y   :=   2;  // valid again\n".repeat(1500).as_bytes());
+        }
     }
     v
 }
@@ -231,8 +235,12 @@ impl Prop for C16Prop {
             });
         }
         if t.chance(1, 3) {
-            files.push(FileSpec { path: "src/bad.pas".into(), text: "x   :=   1;\n".into(), bom: false, kind: "badutf8".into() });
+            let name = if t.chance(1, 2) { "src/bad.pas" } else { "src/badbig.pas" };
+            files.push(FileSpec { path: name.into(), text: "x   :=   1;\n".into(), bom: false, kind: "badutf8".into() });
         }
+        // names that begin with a character a list-file reader might treat specially; outside
+        // src/, so only the explicit path forms select them
+        let tricky = if t.chance(1, 3) { Some(*t.pick(&["#gen.pas", " lead.pas", "#d/u.pas", ";x.pas", "!n.pas", "@list.pas", "~t.pas"])) } else { None };
         if t.chance(1, 6) {
             files.push(FileSpec { path: "src/nothere.pas".into(), text: String::new(), bom: false, kind: "missing".into() });
         }
@@ -240,6 +248,11 @@ impl Prop for C16Prop {
         files.push(FileSpec { path: "src/note.txt".into(), text: "x   :=   1;\n".into(), bom: false, kind: "good".into() });
         files.push(FileSpec { path: "src/a.pas.x".into(), text: "y   :=   2;\n".into(), bom: false, kind: "good".into() });
         let form = (*t.pick(&["file", "dir", "glob", "files-from"])).to_string();
+        if let Some(name) = tricky {
+            if form == "file" || form == "files-from" {
+                files.push(FileSpec { path: name.into(), text: "z   :=   3 ;\n".into(), bom: false, kind: "good".into() });
+            }
+        }
         if encoding != "utf-8" {
             // every byte sequence decodes in a single-byte code page: no undecodable file there
             files.retain(|f| f.kind != "badutf8");
